@@ -2,7 +2,7 @@
 //! A state is represented by the first history that reaches it; every transition re-executes
 //! `history ++ [op]` on a fresh real object and compares it with the reference model.
 
-use crate::par::par_for;
+use crate::par::par_for_leg;
 use crate::report::Reporter;
 use serde_json::{Value, json};
 use std::collections::HashSet;
@@ -33,38 +33,58 @@ where
 	MK: Fn() -> S + Sync,
 	F: Fn(&mut S, &[Op]) -> Step<K> + Sync,
 {
+	let leg = rep.next_leg();
+	if let Some((fleg, hidx)) = &rep.replay_filter {
+		// replay mode: evaluate exactly the recorded history (menu indices)
+		if *fleg == leg && hidx.iter().all(|k| *k < menu.len()) && !hidx.is_empty() {
+			let hist: Vec<Op> = hidx.iter().map(|k| menu[*k].clone()).collect();
+			let mut st = mk();
+			crate::report::set_case_hist(leg, hidx);
+			let r = step(&mut st, &hist);
+			for (sig, what) in r.violations {
+				rep.violation(&sig, &what, json!({"engine":"HIST","model": name, "history": format!("{hist:?}")}));
+			}
+			crate::report::clear_case();
+		}
+		return HistStats::default();
+	}
 	let seen: Mutex<HashSet<K>> = Mutex::new(HashSet::new());
 	seen.lock().unwrap().insert(init_key);
-	let mut frontier: Vec<Vec<Op>> = vec![vec![]];
+	// histories are kept as menu indices
+	let mut frontier: Vec<Vec<usize>> = vec![vec![]];
 	let transitions = AtomicU64::new(0);
 	let mut depth = 0;
 	let mut fixpoint = false;
 	let mut per_depth = Vec::new();
 	while depth < max_depth {
-		let next: Mutex<Vec<Vec<Op>>> = Mutex::new(Vec::new());
+		let next: Mutex<Vec<Vec<usize>>> = Mutex::new(Vec::new());
 		let n = frontier.len() * menu.len();
-		par_for(rep, n, 8, &mk, |i, st, local| {
-			let h = &frontier[i / menu.len()];
-			let op = &menu[i % menu.len()];
-			let mut hist = h.clone();
-			hist.push(op.clone());
+		par_for_leg(rep, leg, false, n, 8, &mk, |i, st, local| {
+			let mut hidx = frontier[i / menu.len()].clone();
+			hidx.push(i % menu.len());
+			let hist: Vec<Op> = hidx.iter().map(|k| menu[*k].clone()).collect();
+			crate::report::set_case_hist(leg, &hidx);
 			let r = step(st, &hist);
-			let Some(key) = r.key else { return };
+			let Some(key) = r.key else {
+				crate::report::clear_case();
+				return;
+			};
 			transitions.fetch_add(1, Ordering::Relaxed);
 			let bad = !r.violations.is_empty();
 			for (sig, what) in r.violations {
 				rep.violation(&sig, &what, json!({"engine":"HIST","model": name, "history": format!("{hist:?}")}));
 			}
+			crate::report::clear_case();
 			let new = seen.lock().unwrap().insert(key);
 			local.case_unique(if bad { "violating-transition" } else if new { "new-state" } else { "known-state" });
 			// do not expand beyond a violating state: the reference and the implementation already disagree
 			if new && !bad {
-				next.lock().unwrap().push(hist);
+				next.lock().unwrap().push(hidx);
 			}
 		});
 		let mut nx = next.into_inner().unwrap();
 		// deterministic order independent of thread timing
-		nx.sort_by(|a, b| format!("{a:?}").cmp(&format!("{b:?}")));
+		nx.sort();
 		depth += 1;
 		per_depth.push(nx.len());
 		if nx.is_empty() {
@@ -72,7 +92,7 @@ where
 			break;
 		}
 		if rep.samples_len() < 6 {
-			rep.sample(json!({"model": name, "history": format!("{:?}", nx[nx.len() / 2])}));
+			rep.sample(json!({"model": name, "history": format!("{:?}", nx[nx.len() / 2].iter().map(|k| menu[*k].clone()).collect::<Vec<Op>>())}));
 		}
 		frontier = nx;
 	}
